@@ -438,6 +438,13 @@ func (x *Exec) applyContract(p *Path, site ssa.Instruction, fc *FuncContract, ca
 			x.havocTarget(p, hctx, m, false, fc)
 			x.havocTarget(p, hctx, m, true, fc)
 		}
+		if fc.Kind == "func" && (len(fc.Holds) > 0 || fc.Atomic != "") {
+			declared := *fc
+			declared.Atomic = "" // the declared targets only, not what other threads may do meanwhile
+			for _, k := range x.modKeysOfContract(&declared, nil) {
+				x.ownGuardedWrite(p, k, "the call of "+cname)
+			}
+		}
 	}
 	if (fc.ReadsClock || everything || hasExternal(fc)) && !x.clockStable {
 		t := e.fresh("now", "Int")
@@ -864,6 +871,50 @@ func (x *Exec) frameCheck(p *Path, fc *FuncContract) {
 		ob := x.oblige(p, "frame", shortKey(k), goal, nil, "only the locations in the modifies clause change ("+k+")")
 		_ = ob
 	}
+}
+
+// ownGuardedWrite: a function that is not itself a critical section of its callers (no atomic / holds attribute) gets no
+// frame check on lock-guarded state at its exits, because other threads may change that state between its critical
+// sections. What the function writes ITSELF to guarded state (a store under a lock it takes, or a contracted callee
+// that modifies such state) must still be covered by its modifies clause, at the granularity of heap keys.
+func (x *Exec) ownGuardedWrite(p *Path, key, what string) {
+	fc := x.fc
+	if fc == nil || fc.Trusted || fc.Atomic != "" || len(fc.Holds) > 0 || hasEverything(fc) {
+		return
+	}
+	if x.guardedAll == nil {
+		x.guardedAll = map[string]bool{}
+		for tk, tc := range x.e.cs.Types {
+			mus := map[string]bool{}
+			for _, mu := range tc.Guarded {
+				mus[mu] = true
+			}
+			for _, g := range tc.Ghost {
+				if g.GuardedBy != "" {
+					mus[g.GuardedBy] = true
+				}
+			}
+			for mu := range mus {
+				if strings.Contains(mu, ".") {
+					continue
+				}
+				for _, gk := range x.guardedKeys(tk, mu) {
+					x.guardedAll[gk] = true
+				}
+			}
+		}
+		x.fcModKeys = map[string]bool{}
+		for _, k := range x.modKeysOfContract(fc, nil) {
+			x.fcModKeys[k] = true
+		}
+	}
+	if !x.guardedAll[key] || x.fcModKeys[key] {
+		return
+	}
+	if x.e.isGhostKey(key) {
+		return
+	}
+	x.oblige(p, "frame", "guarded_write:"+shortKey(key), "false", nil, what+" writes lock-guarded state ("+shortKey(key)+") that the modifies clause of "+fc.Name+" does not list")
 }
 
 func shortKey(k string) string {
@@ -1471,6 +1522,17 @@ func (x *Exec) guardCheck(p *Path, a *Addr, write bool, site ssa.Instruction) {
 		return
 	}
 	x.lockCheck(p, a.TKey, mu, a.Obj, a.Field, write)
+	if write {
+		if st := x.structType(a.TKey); st != nil {
+			for i := 0; i < st.NumFields(); i++ {
+				if st.Field(i).Name() == a.Field {
+					for _, lf := range x.e.leaves(st.Field(i).Type()) {
+						x.ownGuardedWrite(p, fieldKey(a.TKey, a.Field, lf.Path), "a store")
+					}
+				}
+			}
+		}
+	}
 }
 
 func (x *Exec) isSetup(tc *TypeContract) bool {
@@ -1535,6 +1597,14 @@ func (x *Exec) guardCheckMap(p *Path, mv Val, write bool, site ssa.Instruction) 
 		return
 	}
 	x.lockCheck(p, mv.Own.TKey, mu, mv.Own.Obj, mv.Own.Field+"[]", write)
+	if write && mv.T != nil {
+		if u, ok := mv.T.Underlying().(*types.Map); ok {
+			for _, lf := range x.e.leaves(u.Elem()) {
+				x.ownGuardedWrite(p, "M:"+mapKeyBase(mv.T)+lf.Path, "a map update")
+			}
+			x.ownGuardedWrite(p, "MD:"+mapKeyBase(mv.T), "a map update")
+		}
+	}
 }
 
 func (x *Exec) isFreshObj(p *Path, obj string) bool {
